@@ -56,6 +56,8 @@ fn level_ok(scheme: SchemeType, n: usize, moduli: &[u64], t: u64, sec: u16) -> R
         let bits = 64 - q.leading_zeros();
         if !(2..=60).contains(&bits) { return Err(format!("modulus {q} has {bits} bits")); }
         if q % (2 * n as u64) != 1 { return Err(format!("modulus {q} is not 1 mod 2N")); }
+        // "coeff_modulus's primes": a composite value has no well-defined minimal primitive root (fixed in /repo: NTT tables refuse it)
+        if !rm::is_prime(q) { return Err(format!("modulus {q} is composite")); }
     }
     for i in 0..moduli.len() { for j in 0..i { if rm::gcd(moduli[i], moduli[j]) != 1 { return Err(format!("moduli {} and {} not coprime", moduli[i], moduli[j])); } } }
     let q = BigU::product(moduli);
@@ -176,11 +178,6 @@ fn oracle(c: &ParmCase) -> Verdict {
         if let Err(why) = level_ok(scheme, n, &m, c.t, c.sec) { return fail_key("C13/unsound-accept", format!("context reports parameters_set but level {i} (chain_index {}) violates a precondition: {why} (moduli {m:?}, t={}, N={n}, sec {})", cd.chain_index(), c.t, c.sec)); }
         check!(cd.qualifiers().parameters_set(), "level {i} in the chain does not report parameters_set");
     }
-    // Known finding (known_findings.json, key C13/nondeterministic-root-search/composite-modulus): for a composite modulus = 1 mod 2N the
-    // randomized primitive-root search makes acceptance of a level a coin flip, so chain shape and cross-context agreement are
-    // not asserted for such sets (they are excluded here and re-executed by the dedicated probe sub-check).
-    let composite = n >= 2 && c.moduli.iter().any(|&q| !rm::is_prime(q) && q % (2 * n as u64) == 1);
-    if composite { return Verdict::Pass(Info::new(false).evals(evals).label("excluded: composite modulus = 1 mod 2N (known finding)")); }
     // ---------------- chain structure
     let k = c.moduli.len();
     check!(chain[0].parms_id() == ctx.key_parms_id(), "walk does not start at the key level");
@@ -334,7 +331,8 @@ fn gen_oracle(c: &GenCase) -> Verdict {
     Verdict::Pass(Info::new(c.bits.len() >= 2).label(format!("logN={}", c.logn)))
 }
 
-/// re-executes the stored input of the known finding: contexts built repeatedly from one parameter object must agree
+/// regression for the repaired composite-modulus defect: contexts built repeatedly from one parameter object must agree
+/// (before the fix the randomized root search accepted or rejected a composite modulus = 1 mod 2N from run to run)
 fn probe_oracle(c: &ParmCase) -> Verdict {
     let parms = match build(c) { Ok(p) => p, Err(e) => return fail(e) };
     let mut seen: Vec<Vec<ParmsID>> = vec![];
@@ -361,7 +359,7 @@ pub fn def() -> PropertyDef {
             Sub::prop("random_parameter_objects", 120_000, 1_000_000, 0.3, parm_case, oracle).fuzzable(parm_decode, oracle), Sub::corpus("fuzz_corpus_params", "c13_params", parm_decode, oracle),
             Sub::enumerate("small_universe_exhaustive", universe, oracle),
             Sub::prop("generated_moduli", 1_500, 30_000, 0.3, |_| gen_case(), gen_oracle),
-            Sub::enumerate("known_finding_probe", probe_cases, probe_oracle),
+            Sub::enumerate("composite_modulus_probe", probe_cases, probe_oracle),
         ],
     }
 }
